@@ -45,14 +45,17 @@ Proof. exact delivered_is_subsequence_refuted. Qed.
 Print Assumptions C01_delivered_is_subsequence_refuted.
 
 (* What does hold (strongest form): per media and format the received packets are an order-preserving
-   subsequence of the written ones
-     - for every UDP reader, always (the receiver's in-order filter);
-     - for every TCP reader, among the packets that were pushed while its writer was open
-       ([ordered_part]: deliveries whose ghost flag d_late is false).
-   Missing for the full statement: the packets pushed between Close() and writer = nil.  Such a writer
-   state exists only while a PAUSE / TEARDOWN / close of that very reader is being processed
-   (C01_closed_writer_only_when_stopping), and a TCP reader that is never asked to stop receives
-   everything in order (C01_tcp_complete). *)
+   subsequence of the written ones among the deliveries without the ghost flag d_late ([ordered_part]):
+     - TCP reader: d_late marks the packets that were pushed while its writer was closed but not yet nil.
+       Such a writer state exists only while a PAUSE / TEARDOWN / close of that very reader is being
+       processed (C01_closed_writer_only_when_stopping), and a TCP reader that is never asked to stop
+       receives everything in order (C01_tcp_complete).
+     - UDP reader: d_late marks what is delivered from the first position reset of its receiver on
+       (rtpreceiver gives up its position after more than BufferSize consecutive packets older than the
+       last delivered one and restarts from such a packet).  Until then everything is in order
+       (C01_udp_in_order_until_reset), and a reset needs that many consecutive late arrivals
+       (C01_udp_reset_needs_late_run) - on loopback only the reordering above produces them.
+   Missing for the full statement: exactly the flagged deliveries. *)
 Theorem C01_delivered_is_subsequence_partial : forall c rs st, reach c rs st -> forall r m f s,
   In r (s_readers st) -> ssrc_of c m f = Some s ->
   Subseq (deliv_mf_ord r m f) (map (fun p => set_ssrc p s) (written_mf (s_written st) m f)).
@@ -93,6 +96,21 @@ Theorem C01_tcp_global_order_partial : forall c rs st, reach c rs st -> forall r
   In r (s_readers st) -> r_tcp r = true -> sinc (didxs (nl_d (r_deliv r))).
 Proof. exact tcp_global_order_partial. Qed.
 Print Assumptions C01_tcp_global_order_partial.
+
+(* A UDP reader whose receiver never reset its position has received every format in order. *)
+Theorem C01_udp_in_order_until_reset : forall c rs st r m f,
+  reach c rs st -> In r (s_readers st) -> r_tcp r = false -> r_resets r = 0 ->
+  sinc (didxs (filter (same_mf m f) (r_deliv r))).
+Proof. exact udp_in_order_until_reset. Qed.
+Print Assumptions C01_udp_in_order_until_reset.
+
+Theorem C01_udp_reset_needs_late_run : forall c st s st' k r r',
+  step c st s = Some st' -> nnth k (s_readers st) = Some r -> nnth k (s_readers st') = Some r' ->
+  r_resets r' <> r_resets r ->
+  exists i o m f last neg, s = SArrive k i o /\ r_tcp r = false /\
+    rx_get (r_rx r) m f = Some (last, neg) /\ c_B c <= neg.
+Proof. exact udp_reset_needs_late_run. Qed.
+Print Assumptions C01_udp_reset_needs_late_run.
 
 (* Conservation: the packets a reader's queue accepted are exactly those delivered, those still in the
    transport or in the queue, and those explicitly discarded. *)
@@ -161,7 +179,7 @@ Proof. exact step_inv. Qed.
 Print Assumptions C01_invariant.
 
 (* ---- non-vacuity: 2 medias (one with 2 formats), a TCP and a UDP reader, capacity 2 ---- *)
-Definition ex_cfg := mkCfg 2 [[(96, 1000); (97, 1001)]; [(8, 2000)]].
+Definition ex_cfg := mkCfg 2 64 [[(96, 1000); (97, 1001)]; [(8, 2000)]].
 Definition ex_rs := [new_reader true [(0, 0); (1, 2)]; new_reader false [(1, 5000)]].
 Definition ex_p (seq pt : N) := mkP seq (seq * 90) false pt 7 [seq; 1; 2].
 Definition ex_steps :=
